@@ -7,11 +7,12 @@
      cli.utils.validate() is applied to each pair.
 """
 import json
+import os
 import random
 import re
 
 from harness import common, gen
-from harness.common import Report, pmap
+from harness.common import Report, pmap, run_tlc, subdir
 from harness.parsepipe import build_corpus, parse_corpus, input_event, with_timeout, Timeout
 from harness.langenum import leaves_of
 from harness.treetrace import TreeTrace, ir_shape, ir_text
@@ -112,14 +113,115 @@ def _roundtrip_case(args):
     return {"error": None, "items": out}
 
 
+def _charts(args):
+    from harness.fan import make, quiet
+    from harness.chartrec import record
+    spec, start, words = args
+    quiet()
+    out = []
+    try:
+        f = make(spec)
+    except Exception:  # noqa
+        return out
+    for w, inside in words:
+        try:
+            c = with_timeout(lambda: record(f, w, start), 10.0)
+        except BaseException:  # noqa
+            f = make(spec)
+            continue
+        c["inside"] = inside
+        out.append((w, c))
+    return out
+
+
+def plain_cases(rep, seed, n, mu):
+    """more grammars that compile to plain rules (no regex, no open-ended repetition), with their enumerated languages,
+    for the chart conformance only"""
+    from harness.chartrec import eligible
+    from harness.langenum import enumerate_languages, near_misses
+    rnd = random.Random(seed + 4242)
+    gs = {}
+    for _ in range(n * 40):
+        if len(gs) >= n:
+            break
+        g = gen.rand_nullable_grammar(rnd) if rnd.random() < 0.3 else gen.rand_grammar(rnd, flavour="text", regex_ok=False, computed=False,
+                                                                                   classes=gen.SMALL_CLASSES)
+        if eligible(g) and gen.grammar_in_family(g) and gen.count_derivations(g, mu) <= 1500 and gen.render(g) not in {gen.render(x) for x in gs.values()}:
+            gs[50000 + len(gs)] = g
+    enum = enumerate_languages(rep, gs, mu, max_nodes=45, label="Lang(plain-rule grammars)")
+    out = []
+    for k, g in gs.items():
+        e = enum[k]
+        inside = sorted(e.words, key=repr)
+        outside = [] if e.truncated else near_misses(inside, mu, rnd, limit=40)
+        out.append({"gid": k, "g": g, "spec": gen.render(g), "enum": e, "inside": rnd.sample(inside, min(len(inside), 30)), "outside_words": outside,
+                    "parsed": {}})
+    return out
+
+
+def chart_conformance(rep, cases, per_case):
+    """(iii) binding of the parser model: for the grammars of the corpus that compile to plain rules, the chart of the real
+    parse (item cores per column) must equal the chart EarleyChart.tla computes from the same compiled rules, and the
+    model's own accept / reject verdict must equal the verdict of the independent enumeration (Lang.tla).  A chart that
+    differs is not a violation of C05 by itself (an optimisation may legitimately change the chart): it is reported in
+    the evidence and attached to acceptance violations as a diagnosis; a MODEL verdict that contradicts the enumeration
+    is a machinery failure."""
+    from harness.chartrec import eligible
+    jobs, owners = [], []
+    for c in cases:
+        if "__reader__" in c["parsed"] or not eligible(c["g"]) or c["enum"].truncated:
+            continue
+        words = [(w, True) for w in c["inside"][:per_case] if isinstance(w, str)]
+        words += [(w, False) for w in c["outside_words"][:per_case // 2] if isinstance(w, str)]
+        if words:
+            jobs.append((c["spec"], c["g"]["start"], words))
+            owners.append(c)
+    recs = []
+    for c, out in zip(owners, pmap(_charts, jobs)):
+        for w, r in out:
+            recs.append((c, w, r))
+    if not recs:
+        raise common.Machinery("no grammar of the corpus is eligible for chart conformance")
+    path = os.path.join(subdir("c05"), "charts.ndjson")
+    with open(path, "w") as fh:
+        for _c, _w, r in recs:
+            fh.write(json.dumps({k: r[k] for k in ("rules", "start", "input", "chart")}) + "\n")
+    r = run_tlc("EarleyChart", "EarleyChart", workers=4, env={"CASES": path}, timeout=1800, heap="8g")
+    rep.tlc(r, "EarleyChart(%d parses)" % len(recs))
+    ok = bad = 0
+    first_bad = None
+    seen = set()
+    for line in r.out.splitlines():
+        m = re.match(r'<<"CHART-(OK|BAD)", (\d+), (TRUE|FALSE)(?:, "(.*)")?>>$', line.strip())
+        if not m:
+            continue
+        ci = int(m.group(2))
+        seen.add(ci)
+        c, w, rec = recs[ci - 1]
+        if (m.group(3) == "TRUE") != rec["inside"]:
+            raise common.Machinery("EarleyChart %s %r of\n%salthough the enumeration says the opposite" % ("accepts" if m.group(3) == "TRUE" else "rejects", w, c["spec"]))
+        if m.group(1) == "OK":
+            ok += 1
+        else:
+            bad += 1
+            c.setdefault("chart_diff", {})[w] = m.group(4)[:600]
+            first_bad = first_bad or {"spec": c["spec"], "word": w, "diff": json.loads(json.loads('"' + m.group(4) + '"'))}
+    if len(seen) != len(recs):
+        raise common.Machinery("EarleyChart judged %d of %d recorded parses" % (len(seen), len(recs)))
+    rep.add(chart_conformance={"parses": len(recs), "charts_equal": ok, "charts_differ": bad, "first_difference": first_bad,
+                               "grammars": len(owners)})
+
+
 def run(tier, seed):
     rep = Report(PROP, tier, seed, "model_checking")
     ng, mu = (40, 5) if tier == "quick" else (500, 6)
     # (ii) completeness on the stated class
     cases = build_corpus(rep, seed + 1000, ng, mu)
     for c in cases:
+        c["outside_words"] = c["outside"]
         c["outside"] = []
     parse_corpus(cases)
+    chart_conformance(rep, cases + plain_cases(rep, seed, 16 if tier == "quick" else 150, mu), 12 if tier == "quick" else 40)
     n_in = n_class = skipped = 0
     tt = TreeTrace("c05")
     for c in cases:
